@@ -38,8 +38,13 @@ NameOK(e) == /\ ~e.nonStr
              /\ CASE e.role = "long" -> LongNameOK(e.name)
                   [] e.role = "short" -> ShortNameOK(e.name)
                   [] e.role = "arg" -> ArgNameWellFormed(e.name)
+                  [] e.role = "alias" -> AliasMust(e.name)
 Name(e) ==
-  /\ Check(tid, l, "P.name.accepts", e.role, e.obs.accepted = NameOK(e))
+  /\ Check(tid, l, "P.name.accepts", e.role, e.role # "alias" => e.obs.accepted = NameOK(e))
+  /\ Check(tid, l, "P.alias.accepts", IF e.obs.accepted THEN "accepted" ELSE "rejected",
+           (e.role = "alias" /\ ~e.nonStr) => /\ (AliasMust(e.name) => e.obs.accepted)
+                                               /\ (~AliasMay(e.name) => ~e.obs.accepted))
+  /\ Check(tid, l, "P.alias.kept", "", (e.role = "alias" /\ ~e.nonStr /\ AliasMust(e.name) /\ e.obs.accepted) => e.obs.kept = AliasKept(e.name))
   /\ Check(tid, l, "P.name.error_kind", e.obs.cls, ~e.obs.accepted => e.obs.cls = "ValueError")
 
 ConvEv(e) ==
